@@ -1,9 +1,421 @@
 package c20
 
+// Part B: the real master and real worker processes (this test binary re-executed), driven
+// by rapid-drawn fault scripts on a loopback port. Wall-clock based, therefore only SAFETY
+// observations can produce a violation; a recovery that is not observed within its bounded
+// wait is counted as "not observed", never reported.
+
 import (
 	"encoding/json"
+	"fmt"
+	"io"
+	"net"
+	"net/http"
+	"os"
+	"os/exec"
+	"path/filepath"
+	"sort"
+	"strconv"
+	"strings"
+	"sync"
+	"syscall"
+	"testing"
+	"time"
+
+	"github.com/DemoHn/Zn/pkg/server"
+	"pgregory.net/rapid"
 
 	h "verif/harness"
 )
 
-func replayProcess(raw json.RawMessage) ([]h.Failure, error) { return nil, nil }
+// ---------------------------------------------------------------------------------------
+// role of a re-executed process: master or worker of the prefork server
+
+type tokenHandler struct{ logPath string }
+
+func (th tokenHandler) ServeHTTP(w http.ResponseWriter, r *http.Request) {
+	tok := r.URL.Query().Get("t")
+	pid := os.Getpid()
+	logLine(th.logPath, fmt.Sprintf("enter %d %s %d\n", pid, tok, time.Now().UnixNano()))
+	switch {
+	case strings.HasPrefix(tok, "slow"):
+		time.Sleep(250 * time.Millisecond)
+	case strings.HasPrefix(tok, "hang"):
+		time.Sleep(time.Hour)
+	default:
+		time.Sleep(15 * time.Millisecond)
+	}
+	logLine(th.logPath, fmt.Sprintf("leave %d %s %d\n", pid, tok, time.Now().UnixNano()))
+	w.Header().Add("Content-Type", "text/plain")
+	w.WriteHeader(200)
+	io.WriteString(w, fmt.Sprintf("pid=%d token=%s", pid, tok))
+}
+
+func logLine(path, s string) {
+	f, err := os.OpenFile(path, os.O_APPEND|os.O_WRONLY|os.O_CREATE, 0o644)
+	if err != nil {
+		return
+	}
+	f.WriteString(s)
+	f.Close()
+}
+
+// runRole - called from TestMain before flag parsing when VERIF_PM_ROLE is set
+func runRole() {
+	initN, _ := strconv.Atoi(os.Getenv("VERIF_PM_INIT"))
+	maxN, _ := strconv.Atoi(os.Getenv("VERIF_PM_MAX"))
+	zns := server.NewZnPMServer(server.ZnPMServerConfig{InitProcs: initN, MaxProcs: maxN, Timeout: 1})
+	zns.SetHandler(tokenHandler{logPath: os.Getenv("VERIF_PM_LOG")})
+	err := zns.Start("tcp://127.0.0.1:" + os.Getenv("VERIF_PM_PORT"))
+	if err != nil {
+		fmt.Fprintln(os.Stderr, "role exits:", err)
+		os.Exit(3)
+	}
+	os.Exit(0)
+}
+
+// ---------------------------------------------------------------------------------------
+
+type step struct {
+	Kind   string   `json:"kind"` // requests | kill | wait
+	Tokens []string `json:"tokens,omitempty"`
+	Ms     int      `json:"ms,omitempty"`
+}
+
+type procCase struct {
+	Init  int    `json:"init"`
+	Max   int    `json:"max"`
+	Steps []step `json:"steps"`
+}
+
+func replayProcess(raw json.RawMessage) ([]h.Failure, error) {
+	var c procCase
+	if err := json.Unmarshal(raw, &c); err != nil {
+		return nil, err
+	}
+	f, _ := runProcessScript(c)
+	return f, nil
+}
+
+func freePort() int {
+	l, err := net.Listen("tcp", "127.0.0.1:0")
+	if err != nil {
+		panic(err)
+	}
+	defer l.Close()
+	return l.Addr().(*net.TCPAddr).Port
+}
+
+// childrenOf - live (non-zombie) child processes of pid, from /proc
+func childrenOf(pid int) []int {
+	var out []int
+	ents, _ := os.ReadDir("/proc")
+	for _, e := range ents {
+		n, err := strconv.Atoi(e.Name())
+		if err != nil {
+			continue
+		}
+		b, err := os.ReadFile(filepath.Join("/proc", e.Name(), "stat"))
+		if err != nil {
+			continue
+		}
+		s := string(b)
+		i := strings.LastIndex(s, ")")
+		if i < 0 {
+			continue
+		}
+		f := strings.Fields(s[i+1:])
+		if len(f) < 2 {
+			continue
+		}
+		ppid, _ := strconv.Atoi(f[1])
+		if ppid == pid && f[0] != "Z" {
+			out = append(out, n)
+		}
+	}
+	sort.Ints(out)
+	return out
+}
+
+type observations struct {
+	notObserved map[string]int
+	faults      int
+}
+
+func runProcessScript(c procCase) (fails []h.Failure, obs observations) {
+	obs.notObserved = map[string]int{}
+	dir, _ := os.MkdirTemp("", "verif-c20-*")
+	defer os.RemoveAll(dir)
+	logPath := filepath.Join(dir, "handler.log")
+	port := freePort()
+	pipesBefore, _ := filepath.Glob("/tmp/zinc-server-pipe-*")
+	master := exec.Command(os.Args[0])
+	master.Env = append(os.Environ(), "VERIF_PM_ROLE=1", fmt.Sprintf("VERIF_PM_INIT=%d", c.Init), fmt.Sprintf("VERIF_PM_MAX=%d", c.Max),
+		fmt.Sprintf("VERIF_PM_PORT=%d", port), "VERIF_PM_LOG="+logPath)
+	errFile, _ := os.Create(filepath.Join(dir, "master.err"))
+	master.Stdout, master.Stderr = errFile, errFile
+	master.SysProcAttr = &syscall.SysProcAttr{Setpgid: true}
+	if err := master.Start(); err != nil {
+		return []h.Failure{{Sig: "process/harness", Msg: err.Error()}}, obs
+	}
+	masterDone := make(chan struct{})
+	go func() { master.Wait(); close(masterDone) }()
+	defer func() {
+		syscall.Kill(-master.Process.Pid, syscall.SIGKILL)
+		<-masterDone
+		pipesAfter, _ := filepath.Glob("/tmp/zinc-server-pipe-*")
+		known := map[string]bool{}
+		for _, p := range pipesBefore {
+			known[p] = true
+		}
+		for _, p := range pipesAfter {
+			if !known[p] {
+				os.Remove(p)
+			}
+		}
+	}()
+	fail := func(sig, msg string) {
+		b, _ := os.ReadFile(filepath.Join(dir, "master.err"))
+		cj, _ := json.Marshal(c)
+		fails = append(fails, h.Failure{Sig: "process/" + sig, Msg: fmt.Sprintf("script %s\n%s\nmaster output (tail): %s", cj, msg, tailOf(string(b), 600))})
+	}
+	// monitor: number of live children of the master, sampled continuously
+	stop := make(chan struct{})
+	var monMu sync.Mutex
+	maxSeen := 0
+	var monWG sync.WaitGroup
+	monWG.Add(1)
+	go func() {
+		defer monWG.Done()
+		for {
+			select {
+			case <-stop:
+				return
+			case <-masterDone:
+				return
+			default:
+			}
+			n := len(childrenOf(master.Process.Pid))
+			monMu.Lock()
+			if n > maxSeen {
+				maxSeen = n
+			}
+			monMu.Unlock()
+			time.Sleep(10 * time.Millisecond)
+		}
+	}()
+	waitChildren := func(atLeast int, limit time.Duration) bool {
+		deadline := time.Now().Add(limit)
+		for time.Now().Before(deadline) {
+			if len(childrenOf(master.Process.Pid)) >= atLeast {
+				return true
+			}
+			select {
+			case <-masterDone:
+				return false
+			default:
+			}
+			time.Sleep(20 * time.Millisecond)
+		}
+		return false
+	}
+	if !waitChildren(c.Init, 8*time.Second) {
+		select {
+		case <-masterDone:
+			fail("master-died-at-start", "the master exited before its initial workers were up")
+		default:
+			obs.notObserved["initial workers up within 8 s"]++
+		}
+		close(stop)
+		monWG.Wait()
+		return
+	}
+	time.Sleep(150 * time.Millisecond)
+	client := &http.Client{Timeout: 6 * time.Second, Transport: &http.Transport{DisableKeepAlives: true}}
+	type answer struct{ tok, body string; err error }
+	var allAnswers []answer
+	var ansMu sync.Mutex
+	var reqWG sync.WaitGroup
+	for _, st := range c.Steps {
+		switch st.Kind {
+		case "requests":
+			for _, tok := range st.Tokens {
+				reqWG.Add(1)
+				go func(tok string) {
+					defer reqWG.Done()
+					resp, err := client.Get(fmt.Sprintf("http://127.0.0.1:%d/x?t=%s", port, tok))
+					a := answer{tok: tok, err: err}
+					if err == nil {
+						b, _ := io.ReadAll(resp.Body)
+						resp.Body.Close()
+						a.body = string(b)
+					}
+					ansMu.Lock()
+					allAnswers = append(allAnswers, a)
+					ansMu.Unlock()
+				}(tok)
+			}
+		case "kill":
+			obs.faults++
+			kids := childrenOf(master.Process.Pid)
+			if len(kids) > 0 {
+				syscall.Kill(kids[st.Ms%len(kids)], syscall.SIGKILL)
+			}
+		case "wait":
+			time.Sleep(time.Duration(st.Ms) * time.Millisecond)
+		}
+	}
+	// let the non-hanging requests finish (bounded), then the timeout of hanging ones pass
+	done := make(chan struct{})
+	go func() { reqWG.Wait(); close(done) }()
+	select {
+	case <-done:
+	case <-time.After(9 * time.Second):
+		obs.notObserved["all requests answered within 9 s"]++
+	}
+	// quiet: the pool returns to at least init
+	select {
+	case <-masterDone:
+		fail("master-died", "the master process exited while serving the script (its workers are gone with it: the pool cannot return to --init-procs)")
+	default:
+		if !waitChildren(c.Init, 6*time.Second) {
+			select {
+			case <-masterDone:
+				fail("master-died", "the master process exited while serving the script")
+			default:
+				obs.notObserved[fmt.Sprintf("pool back to init=%d within 6 s of quiet", c.Init)]++
+			}
+		}
+	}
+	close(stop)
+	monWG.Wait()
+	monMu.Lock()
+	seen := maxSeen
+	monMu.Unlock()
+	if seen > c.Max {
+		fail("more-than-max-procs", fmt.Sprintf("%d worker processes were alive at the same time, --max-procs is %d", seen, c.Max))
+	}
+	// answers: each answered request carries its own token, from exactly one worker
+	ansMu.Lock()
+	for _, a := range allAnswers {
+		if a.err != nil {
+			if strings.HasPrefix(a.tok, "hang") || obs.faults > 0 {
+				continue // cut by the timeout / a killed worker: allowed
+			}
+			obs.notObserved["request answered: "+strings.SplitN(a.err.Error(), ":", 2)[0]]++
+			continue
+		}
+		if !strings.HasSuffix(a.body, "token="+a.tok) {
+			fail("wrong-answer", fmt.Sprintf("request with token %q was answered %q", a.tok, a.body))
+		}
+	}
+	ansMu.Unlock()
+	// handler log: one request at a time per worker, each token handled at most once
+	lb, _ := os.ReadFile(logPath)
+	type iv struct {
+		tok        string
+		start, end int64
+	}
+	per := map[string][]*iv{}
+	handled := map[string]int{}
+	for _, ln := range strings.Split(string(lb), "\n") {
+		f := strings.Fields(ln)
+		if len(f) != 4 {
+			continue
+		}
+		ts, _ := strconv.ParseInt(f[3], 10, 64)
+		if f[0] == "enter" {
+			per[f[1]] = append(per[f[1]], &iv{tok: f[2], start: ts, end: 1 << 62})
+			handled[f[2]]++
+		} else {
+			for _, x := range per[f[1]] {
+				if x.tok == f[2] && x.end == 1<<62 {
+					x.end = ts
+					break
+				}
+			}
+		}
+	}
+	for tok, n := range handled {
+		if n > 1 {
+			fail("request-handled-twice", fmt.Sprintf("token %q was handled %d times", tok, n))
+		}
+	}
+	for pid, ivs := range per {
+		for i := 0; i < len(ivs); i++ {
+			for j := i + 1; j < len(ivs); j++ {
+				a, b := ivs[i], ivs[j]
+				if a.start < b.end && b.start < a.end && a.end != 1<<62 && b.end != 1<<62 {
+					fail("worker-serves-two-requests", fmt.Sprintf("worker %s served %q and %q at the same time", pid, a.tok, b.tok))
+				}
+			}
+		}
+	}
+	// a hung worker is terminated: its pid must be gone some time after the timeout
+	for pid, ivs := range per {
+		for _, x := range ivs {
+			if strings.HasPrefix(x.tok, "hang") {
+				p, _ := strconv.Atoi(pid)
+				gone := false
+				for i := 0; i < 150; i++ {
+					if syscall.Kill(p, 0) != nil {
+						gone = true
+						break
+					}
+					time.Sleep(20 * time.Millisecond)
+				}
+				if !gone {
+					obs.notObserved["hung worker terminated within 3 s after the script"]++
+				}
+			}
+		}
+	}
+	return
+}
+
+func tailOf(s string, n int) string {
+	if len(s) > n {
+		return s[len(s)-n:]
+	}
+	return s
+}
+
+func TestProcessScripts(t *testing.T) {
+	rapid.Check(t, func(rt *rapid.T) {
+		max := rapid.IntRange(1, 4).Draw(rt, "max")
+		c := procCase{Init: rapid.IntRange(1, max).Draw(rt, "init"), Max: max}
+		n := rapid.IntRange(1, 5).Draw(rt, "nsteps")
+		tokN := 0
+		faults := 0
+		for i := 0; i < n; i++ {
+			switch rapid.IntRange(0, 5).Draw(rt, "kind") {
+			case 0, 1, 2:
+				st := step{Kind: "requests"}
+				for j, k := 0, rapid.IntRange(1, 6).Draw(rt, "nreq"); j < k; j++ {
+					tokN++
+					kind := rapid.SampledFrom([]string{"fast", "fast", "slow", "slow", "hang"}).Draw(rt, "tok")
+					if kind == "hang" {
+						faults++
+					}
+					st.Tokens = append(st.Tokens, fmt.Sprintf("%s%d", kind, tokN))
+				}
+				c.Steps = append(c.Steps, st)
+			case 3:
+				c.Steps = append(c.Steps, step{Kind: "kill", Ms: rapid.IntRange(0, 7).Draw(rt, "which")})
+				faults++
+			default:
+				c.Steps = append(c.Steps, step{Kind: "wait", Ms: rapid.IntRange(10, 400).Draw(rt, "ms")})
+			}
+		}
+		fails, obs := runProcessScript(c)
+		for k, v := range obs.notObserved {
+			h.R.Count("not-observed: "+k, int64(v))
+		}
+		key, _ := json.Marshal(c)
+		labels := []string{fmt.Sprintf("init-%d-max-%d", c.Init, c.Max)}
+		if faults > 0 {
+			labels = append(labels, "with-fault")
+		}
+		h.R.Case(rt, "process", string(key), c, labels, faults > 0, fails)
+	})
+}
